@@ -47,6 +47,33 @@ Definition parse_linstr (s : list N) : option linstr :=
   | _ => None
   end.
 
+Definition parse_binstr (s : list N) : option binstr :=
+  match split colon s with
+  | [op; a] =>
+      if str_eqb op $"lit" then option_map BLit (pz a)
+      else if str_eqb op $"pow2" then option_map BPow2 (parse_decN a)
+      else if str_eqb op $"ones" then option_map BOnes (parse_decN a)
+      else if str_eqb op $"unique" then option_map BUnique (parse_nat a)
+      else None
+  | [op; a; b] =>
+      if str_eqb op $"mask" then match parse_decN a, parse_decN b with Some x, Some y => Some (BMask x y) | _, _ => None end
+      else if str_eqb op $"pow2upto" then match parse_nat a, parse_nat b with Some x, Some y => Some (BPow2UpTo x y) | _, _ => None end
+      else if str_eqb op $"uint64s" then match parse_nat a, parse_nat b with Some x, Some y => Some (BUint64s x y) | _, _ => None end
+      else if str_eqb op $"merge" then match parse_nat a, parse_nat b with Some x, Some y => Some (BMerge x y) | _, _ => None end
+      else if str_eqb op $"concat" then match parse_nat a, parse_nat b with Some x, Some y => Some (BConcat x y) | _, _ => None end
+      else None
+  | [op; a; b; c] =>
+      if str_eqb op $"scribble" then match parse_nat a, parse_nat b, parse_decN c with Some x, Some y, Some z => Some (BScribble x y z) | _, _, _ => None end
+      else None
+  | [op; a; b; c; d] =>
+      if str_eqb op $"extract" then match parse_nat a, parse_nat b, parse_decN c, parse_decN d with
+                                    | Some x, Some y, Some z, Some w => Some (BExtract x y z w) | _, _, _, _ => None end
+      else if str_eqb op $"minmax" then match parse_nat a, parse_nat b, parse_nat c, parse_nat d with
+                                    | Some x, Some y, Some z, Some w => Some (BMinMax x y z w) | _, _, _, _ => None end
+      else None
+  | _ => None
+  end.
+
 Definition print_regs (regs : list (list Z)) : list N := join [slash] (map prl regs).
 
 Definition run (line : list N) : list N :=
@@ -70,6 +97,9 @@ Definition run (line : list N) : list N :=
       else if str_eqb f $"vnew" then match parse_nat a with Some n => r_ok (prl (vnew n)) | None => r_badcase end
       else if str_eqb f $"vhist" then match map_opt parse_vinstr (split semi a) with
                                       | Some prog => print_outcome print_regs (vhist prog [])
+                                      | None => r_badcase end
+      else if str_eqb f $"bhist" then match map_opt parse_binstr (split semi a) with
+                                      | Some prog => print_outcome print_regs (bhist prog [])
                                       | None => r_badcase end
       else if str_eqb f $"lhist" then match map_opt parse_linstr (split semi a) with
                                       | Some prog => print_outcome print_regs (lhist prog [])
